@@ -62,6 +62,89 @@ def base_name(node):
     return node.id if isinstance(node, ast.Name) else None
 
 
+VIEW_METHODS = {'items', 'values', 'keys', 'get', '__getitem__', '__iter__'}
+ITER_FUNCS = {'enumerate', 'zip', 'reversed', 'iter', 'filter', 'map'}
+COPY_FUNCS = {'list', 'tuple', 'sorted', 'set', 'frozenset', 'dict'}
+
+
+def alias_writes(fn):
+    """alias-aware scan of one function: names bound (directly, through attribute / subscript chains, dict views,
+    iteration, tuple unpacking) to objects reachable from a non-self parameter are TAINTED; reports every subscript
+    store, `del`, augmented store and mutator call whose receiver is tainted.  `list(x)` / `sorted(x)` … give a new
+    container (not tainted) whose ELEMENTS are still the caller's objects (a for-loop over it taints its target).
+    Values returned by other calls (self.to_expression(...), sa.*(...), str methods) are new objects."""
+    tainted = {a.arg for a in fn.args.args + fn.args.kwonlyargs + fn.args.posonlyargs} - {'self'}
+    if fn.args.vararg:
+        tainted.add(fn.args.vararg.arg)
+    if fn.args.kwarg:
+        tainted.add(fn.args.kwarg.arg)
+
+    def is_t(e):
+        if isinstance(e, ast.Name):
+            return e.id in tainted
+        if isinstance(e, (ast.Attribute, ast.Subscript, ast.Starred)):
+            return is_t(e.value)
+        if isinstance(e, ast.Call):
+            if isinstance(e.func, ast.Attribute) and e.func.attr in VIEW_METHODS:
+                return is_t(e.func.value)
+            if isinstance(e.func, ast.Name) and e.func.id in ITER_FUNCS:
+                return any(is_t(a) for a in e.args)
+            return False
+        if isinstance(e, ast.IfExp):
+            return is_t(e.body) or is_t(e.orelse)
+        if isinstance(e, ast.BoolOp):
+            return any(is_t(v) for v in e.values)
+        if isinstance(e, ast.NamedExpr):
+            return is_t(e.value)
+        return False
+
+    def elems_t(e):
+        if is_t(e):
+            return True
+        if isinstance(e, ast.Call) and isinstance(e.func, ast.Name) and e.func.id in COPY_FUNCS:
+            return any(is_t(a) or elems_t(a) for a in e.args)
+        return False
+
+    def bind(target):
+        for n in ast.walk(target):
+            if isinstance(n, ast.Name):
+                tainted.add(n.id)
+    for _ in range(4):      # fixpoint over the (few) assignments
+        for n in ast.walk(fn):
+            if isinstance(n, ast.Assign) and is_t(n.value):
+                for t in n.targets:
+                    if isinstance(t, (ast.Name, ast.Tuple, ast.List)):
+                        bind(t)
+            elif isinstance(n, ast.AnnAssign) and n.value is not None and is_t(n.value) and isinstance(n.target, ast.Name):
+                bind(n.target)
+            elif isinstance(n, ast.NamedExpr) and is_t(n.value):
+                bind(n.target)
+            elif isinstance(n, (ast.For, ast.comprehension)) and elems_t(n.iter):
+                bind(n.target)
+            elif isinstance(n, ast.withitem) and n.optional_vars is not None and is_t(n.context_expr):
+                bind(n.optional_vars)
+    out = []
+    for n in ast.walk(fn):
+        targets = []
+        if isinstance(n, ast.Assign):
+            targets = n.targets
+        elif isinstance(n, (ast.AugAssign, ast.AnnAssign)):
+            targets = [n.target]
+        elif isinstance(n, ast.Delete):
+            targets = n.targets
+        flat = []
+        for t in targets:
+            flat += list(t.elts) if isinstance(t, (ast.Tuple, ast.List)) else [t]
+        for t in flat:
+            if isinstance(t, ast.Subscript) and is_t(t.value):
+                out.append((fn.name, ast.unparse(t)))
+            if isinstance(n, ast.AugAssign) and isinstance(t, ast.Name) and t.id in tainted:
+                out.append((fn.name, ast.unparse(n)))       # `x += [...]` mutates a list in place
+        if isinstance(n, ast.Call) and isinstance(n.func, ast.Attribute) and n.func.attr in MUTATORS and is_t(n.func.value):
+            out.append((fn.name, ast.unparse(n.func)))
+    return out
+
+
 def collect():
     warnings.simplefilter('ignore')
     import sqlalchemy as sa
@@ -116,13 +199,12 @@ def collect():
             for t in flat:
                 if isinstance(t, ast.Attribute) and base_name(t) != 'self':
                     attr_stores.append((fname, t.attr))
-                if isinstance(t, ast.Subscript) and base_name(t) in params:
-                    param_writes.append((fname, ast.unparse(t)))
+                pass
             if isinstance(n, ast.Call):
-                if isinstance(n.func, ast.Attribute) and n.func.attr in MUTATORS and base_name(n.func.value) in params:
-                    param_writes.append((fname, ast.unparse(n.func)))
                 if isinstance(n.func, ast.Name) and n.func.id in ('setattr', 'delattr'):
                     attr_stores.append((fname, ast.unparse(n)))
+    for fname, fn in allfns:
+        param_writes += alias_writes(fn)
     # --- live objects
     tm = {}
     dn = []
@@ -209,7 +291,7 @@ def emit(d):
          'def joinLiterals : List String := ' + lean_list(lean_str(x) for x in d['join_literals']),
          '/-- (function, attribute) of every attribute store in the module whose base object is not `self` -/',
          'def attrStores : List (String × String) := ' + pairs(d['attr_stores']),
-         '/-- (function, target) of every subscript store / mutator call on a non-self parameter -/',
+         '/-- (function, target) of every subscript store / del / mutator call whose receiver is reachable from a non-self parameter, through local aliases (alias_writes) -/',
          'def paramWrites : List (String × String) := ' + pairs(d['param_writes']),
          '/-- dialect key accepted by SqlalchemyRender.__init__ -> `self.dialect.name` -/',
          'def dialects : List (String × String) := ' + pairs(d['dialects']),
